@@ -155,3 +155,219 @@ Proof.
   intros Hs (i & Hn & Hl). unfold confirmed. unfold send_at in Hs. rewrite Hs.
   apply (find_confirmed_nth sr (t_id t) (s_acked s) (s_hist s) 1 i Hn). lia.
 Qed.
+
+(* ---------- the initial state ---------- *)
+Lemma nth_error_repeat {A} (a : A) n i b : nth_error (repeat a n) i = Some b -> b = a.
+Proof. intros H. apply nth_error_In in H. apply repeat_spec in H. exact H. Qed.
+
+Lemma inv_init ns nt : Inv (init ns nt).
+Proof.
+  constructor; unfold recv_at, send_at; cbn [init recvs sends].
+  - intros sr r H. apply nth_error_repeat in H. subst. cbn. lia.
+  - intros sr r H t Ht. apply nth_error_repeat in H. subst. destruct Ht.
+  - intros sr r H. apply nth_error_repeat in H. subst. exact I.
+  - intros sr r H. apply nth_error_repeat in H. subst. split; [constructor|]. intros T c [].
+  - intros sr r H t Ht. apply nth_error_repeat in H. subst. destruct Ht.
+  - intros T s H _. apply nth_error_repeat in H. subst. cbn. repeat split; reflexivity.
+  - intros sr r T s Hr Hs l1 e l2 HL. apply nth_error_repeat in Hs. subst. cbn in HL. destruct l1; discriminate.
+  - intros sr r T s Hr Hs e He. apply nth_error_repeat in Hs. subst. destruct He.
+  - intros T s H. apply nth_error_repeat in H. subst. cbn. split; [reflexivity|]. intros C. exfalso. apply C. reflexivity.
+  - intros sr r H T v Hg. apply nth_error_repeat in H. subst. discriminate.
+  - intros sr r H T v Hin. apply nth_error_repeat in H. subst. destruct Hin.
+  - intros T s fl H Hf. apply nth_error_repeat in H. subst. discriminate.
+  - intros T s H sr a Hin. apply nth_error_repeat in H. subst. destruct Hin.
+  - intros sr r H t Ht. apply nth_error_repeat in H. subst. destruct Ht.
+Qed.
+
+(* ---------- a step that changes one sender and leaves what was handed to it unchanged ---------- *)
+Definition ring_ok (s : send) : Prop :=
+  s_next s = Z.of_nat (length (s_hist s)) /\
+  (s_ring s <> [] -> 1 <= s_start s /\ s_ring s = skipn (Z.to_nat (s_start s - 1)) (s_hist s)).
+
+Lemma send_at_set_send x T f T' s' :
+  send_at (set_send x T f) T' s' ->
+  (T = T' /\ exists s, send_at x T s /\ s' = f s) \/ (T <> T' /\ send_at x T' s').
+Proof.
+  unfold send_at, set_send. cbn [sends]. intros H. apply nth_error_upd_inv in H.
+  destruct H as [[E (a & Ha & Hb)]|[Hne H]]; [left; subst T'; split; [reflexivity|exists a; auto]|right; auto].
+Qed.
+
+Lemma mono_set_send x T s s' :
+  send_at x T s -> (exists ext, s_hist s' = s_hist s ++ ext) -> s_acked s <= s_acked s' ->
+  mono x (set_send x T (fun _ => s')).
+Proof.
+  intros Hs Hext Hack. split.
+  - intros sr r H. exists r. split; [exact H|]. split; [lia|]. intros t Ht. left. exact Ht.
+  - intros T0 s0 H0. destruct (Nat.eq_dec T T0) as [->|Hne].
+    + unfold send_at in *. rewrite Hs in H0. inversion H0; subst s0. exists s'. split.
+      * cbn [set_send sends]. exact (nth_error_upd_same (sends x) T0 (fun _ => s') s Hs).
+      * split; assumption.
+    + exists s0. split.
+      * unfold send_at. cbn [set_send sends]. rewrite nth_error_upd_other by exact Hne. exact H0.
+      * split; [exists []; rewrite app_nil_r; reflexivity|lia].
+Qed.
+
+Lemma inv_set_send x T s s' :
+  Inv x -> send_at x T s ->
+  L s' = L s ->
+  (exists ext, s_hist s' = s_hist s ++ ext) -> s_acked s <= s_acked s' ->
+  (s_conn s' = false -> s_hist s' = [] /\ s_chan s' = [] /\ s_ackflight s' = None /\ s_prev s' = [] /\ s_ring s' = [] /\ s_ackin s' = []) ->
+  ring_ok s' ->
+  (forall fl', s_ackflight s' = Some fl' -> forall sr a, In (sr, a) (af_todo fl') -> Good (set_send x T (fun _ => s')) sr T a) ->
+  (forall sr a, In (sr, a) (s_prev s') -> Good (set_send x T (fun _ => s')) sr T a) ->
+  Inv (set_send x T (fun _ => s')).
+Proof.
+  intros HI Hs HL Hext Hack Hnc Hring Hfl Hprev.
+  pose proof (mono_set_send x T s s' Hs Hext Hack) as Hm.
+  set (x' := set_send x T (fun _ => s')) in *.
+  assert (Hrecv : forall sr r, recv_at x' sr r <-> recv_at x sr r) by (intros; unfold recv_at; cbn; reflexivity).
+  assert (Hsend : forall T' s0, send_at x' T' s0 -> (T' = T /\ s0 = s') \/ (T' <> T /\ send_at x T' s0)).
+  { intros T' s0 H. apply send_at_set_send in H. destruct H as [[E (s1 & _ & E2)]|[Hne H]]; [left; auto|right; auto]. }
+  assert (Hsame : send_at x' T s') by (unfold send_at; cbn; exact (nth_error_upd_same (sends x) T (fun _ => s') s Hs)).
+  assert (Hother : forall T' s0, T' <> T -> send_at x T' s0 -> send_at x' T' s0).
+  { intros T' s0 Hne H. unfold send_at. cbn. rewrite nth_error_upd_other by auto. exact H. }
+  destruct HI as [Ilw Ircvb Iq Ipend Ip Inc Ibefore Ibnd Iring Igmap Igackq Igflight Igprev Ireg].
+  constructor.
+  - intros sr r H. apply (Ilw sr r). apply Hrecv. exact H.
+  - intros sr r H. apply (Ircvb sr r). apply Hrecv. exact H.
+  - intros sr r H. apply (Iq sr r). apply Hrecv. exact H.
+  - intros sr r H. apply (Ipend sr r). apply Hrecv. exact H.
+  - intros sr r H t Ht. apply Hrecv in H. destruct (Ip sr r H t Ht) as [(s0 & Hs0 & Hin)|Hp]; [|right; exact Hp].
+    left. destruct (Nat.eq_dec (t_owner t) T) as [E|Hne].
+    + exists s'. rewrite E. split; [exact Hsame|]. rewrite HL. rewrite E in Hs0. unfold send_at in *. rewrite Hs in Hs0. inversion Hs0; subst. exact Hin.
+    + exists s0. split; [apply Hother; assumption|exact Hin].
+  - intros T' s0 H Hc. destruct (Hsend _ _ H) as [[-> ->]|[Hne H0]]; [apply Hnc; exact Hc|apply (Inc T' s0 H0 Hc)].
+  - intros sr r T' s0 Hr H l1 e l2 HLs He t Ht Ho Hlt. apply Hrecv in Hr.
+    destruct (Hsend _ _ H) as [[-> ->]|[Hne H0]].
+    + rewrite HL in HLs. apply (Ibefore sr r T s Hr Hs l1 e l2 HLs He t Ht Ho Hlt).
+    + apply (Ibefore sr r T' s0 Hr H0 l1 e l2 HLs He t Ht Ho Hlt).
+  - intros sr r T' s0 Hr H e Hin He. apply Hrecv in Hr.
+    destruct (Hsend _ _ H) as [[-> ->]|[Hne H0]].
+    + rewrite HL in Hin. apply (Ibnd sr r T s Hr Hs e Hin He).
+    + apply (Ibnd sr r T' s0 Hr H0 e Hin He).
+  - intros T' s0 H. destruct (Hsend _ _ H) as [[-> ->]|[Hne H0]]; [exact Hring|apply (Iring T' s0 H0)].
+  - intros sr r H T' v Hg. apply Hrecv in H. apply (good_mono x x'); [exact Hm|]. apply (Igmap sr r H T' v Hg).
+  - intros sr r H T' v Hin. apply Hrecv in H. apply (good_mono x x'); [exact Hm|]. apply (Igackq sr r H T' v Hin).
+  - intros T' s0 fl H Hf sr a Hin. destruct (Hsend _ _ H) as [[-> ->]|[Hne H0]].
+    + apply (Hfl fl Hf sr a Hin).
+    + apply (good_mono x x'); [exact Hm|]. apply (Igflight T' s0 fl H0 Hf sr a Hin).
+  - intros T' s0 H sr a Hin. destruct (Hsend _ _ H) as [[-> ->]|[Hne H0]].
+    + apply (Hprev sr a Hin).
+    + apply (good_mono x x'); [exact Hm|]. apply (Igprev T' s0 H0 sr a Hin).
+  - intros sr r H. apply (Ireg sr r). apply Hrecv. exact H.
+Qed.
+
+(* ---------- list index helpers ---------- *)
+Lemma skipn_skipn {A} (a b : nat) (l : list A) : skipn a (skipn b l) = skipn (b + a) l.
+Proof.
+  revert l. induction b as [|b IH]; intros l; [reflexivity|]. destruct l as [|y l]; cbn [skipn plus].
+  - destruct a; reflexivity.
+  - apply IH.
+Qed.
+
+Lemma nth_error_skipn' {A} (d k : nat) (l : list A) : nth_error (skipn d l) k = nth_error l (d + k).
+Proof.
+  revert l. induction d as [|d IH]; intros l; [reflexivity|]. destruct l as [|y l]; cbn [skipn plus nth_error].
+  - destruct k; reflexivity.
+  - apply IH.
+Qed.
+
+Lemma nth_error_firstn' {A} (c k : nat) (l : list A) e : nth_error (firstn c l) k = Some e -> (k < c)%nat /\ nth_error l k = Some e.
+Proof.
+  revert k l. induction c as [|c IH]; intros k l H; [destruct k; discriminate|].
+  destruct l as [|y l]; [destruct k; discriminate|]. destruct k as [|k]; cbn [firstn nth_error] in *.
+  - split; [lia|exact H].
+  - destruct (IH _ _ H) as [H1 H2]. split; [lia|exact H2].
+Qed.
+
+Lemma in_prefix_index {A} (l l1 l2 : list A) (e a : A) :
+  l = l1 ++ e :: l2 -> In a l1 -> exists i, (i < length l1)%nat /\ nth_error l i = Some a.
+Proof.
+  intros -> Hin. apply In_nth_error in Hin. destruct Hin as [i Hi]. exists i.
+  assert (i < length l1)%nat by (apply nth_error_Some; congruence). split; [assumption|].
+  rewrite nth_error_app1 by assumption. exact Hi.
+Qed.
+
+(* ---------- aggregation ---------- *)
+Lemma agg_max_in es : forall acc sr a,
+  In (sr, a) (agg_max es acc) -> In (sr, a) acc \/ exists e, In e es /\ e_src e = sr /\ e_val e = a.
+Proof.
+  induction es as [|e es IH]; intros acc sr a H; cbn [agg_max] in H; [left; exact H|].
+  destruct (IH _ _ _ H) as [Hacc|(e' & Hin & H1 & H2)]; [|right; exists e'; split; [right; exact Hin|auto]].
+  destruct (aget (e_src e) acc) as [cur|].
+  - destruct (e_val e >? cur); [|left; exact Hacc].
+    destruct (aset_In _ _ _ _ _ Hacc) as [[-> ->]|Hold]; [right; exists e; split; [left; reflexivity|auto]|left; exact Hold].
+  - destruct (aset_In _ _ _ _ _ Hacc) as [[-> ->]|Hold]; [right; exists e; split; [left; reflexivity|auto]|left; exact Hold].
+Qed.
+
+Lemma covered_bound s w k e :
+  ring_ok s -> nth_error (firstn (covered s w) (s_ring s)) k = Some e ->
+  exists j, nth_error (s_hist s) j = Some e /\ Z.of_nat j + 1 <= w.
+Proof.
+  intros [_ Hring] H. apply nth_error_firstn' in H. destruct H as [Hk Hn].
+  assert (Hne : s_ring s <> []) by (intros E; rewrite E in Hn; destruct k; discriminate).
+  destruct (Hring Hne) as [Hstart Hr]. unfold covered in Hk.
+  destruct (s_ring s) as [|e0 ring] eqn:Er; [contradiction|]. rewrite <- Er in *.
+  destruct (Z.ltb_spec w (s_start s)) as [Hlt|Hge]; [lia|].
+  rewrite Hr in Hn. rewrite nth_error_skipn' in Hn. exists (Z.to_nat (s_start s - 1) + k)%nat. split; [exact Hn|].
+  destruct (Z.ltb_spec (Z.of_nat (length (s_ring s))) (w - s_start s + 1)) as [Hc|Hc].
+  - assert (Z.of_nat k < Z.of_nat (length (s_ring s))) by lia. lia.
+  - assert (Z.of_nat k < w - s_start s + 1) by lia. lia.
+Qed.
+
+Lemma aggregate_good x T s w sr a :
+  Inv x -> send_at x T s ->
+  In (sr, a) (fst (aggregate s w)) ->
+  forall s', s_hist s' = s_hist s -> w <= s_acked s' ->
+  Good (set_send x T (fun _ => s')) sr T a.
+Proof.
+  intros HI Hs Hin s' Hh Hack r Hr. unfold recv_at in Hr. cbn [set_send recvs] in Hr.
+  unfold aggregate in Hin. cbn [fst] in Hin.
+  destruct (agg_max_in _ _ _ _ Hin) as [[]|(e & He & Hsrc & Hval)].
+  apply In_nth_error in He. destruct He as [k Hk].
+  destruct (covered_bound s w k e (i_ring x HI T s Hs) Hk) as (j & Hj & Hjw).
+  assert (HinL : In e (L s)) by (unfold L; apply in_or_app; left; eapply nth_error_In; exact Hj).
+  split; [rewrite <- Hval; apply (i_bnd x HI sr r T s Hr Hs e HinL Hsrc)|].
+  intros t Ht Ho Hlt.
+  destruct (nth_error_split (s_hist s) j Hj) as (l1 & l2 & Hsplit & Hlen).
+  assert (HL : L s = l1 ++ e :: (l2 ++ flat_map chan_entries (s_chan s))) by (unfold L; rewrite Hsplit, <- app_assoc; reflexivity).
+  rewrite <- Hval in Hlt.
+  pose proof (i_before x HI sr r T s Hr Hs l1 e _ HL Hsrc t Ht Ho Hlt) as Hbefore.
+  destruct (in_prefix_index (s_hist s) l1 l2 e (te sr t) Hsplit Hbefore) as (i & Hi & Hni).
+  exists s'. split.
+  - unfold send_at. cbn [set_send sends]. exact (nth_error_upd_same (sends x) T (fun _ => s') s Hs).
+  - exists i. rewrite Hh. split; [exact Hni|]. lia.
+Qed.
+
+(* ---------- actions that only touch one sender ---------- *)
+Lemma good_after_set_send x T s s' sr T' v :
+  send_at x T s -> (exists ext, s_hist s' = s_hist s ++ ext) -> s_acked s <= s_acked s' ->
+  Good x sr T' v -> Good (set_send x T (fun _ => s')) sr T' v.
+Proof. intros Hs He Ha. apply good_mono. apply (mono_set_send x T s s' Hs He Ha). Qed.
+
+Lemma hist_ext_refl (s : send) : exists ext, s_hist s = s_hist s ++ ext.
+Proof. exists []. rewrite app_nil_r. reflexivity. Qed.
+
+Lemma skipn_app_le {A} (d : nat) (l es : list A) : (d <= length l)%nat -> skipn d (l ++ es) = skipn d l ++ es.
+Proof. intros H. rewrite skipn_app. replace (d - length l)%nat with 0%nat by lia. reflexivity. Qed.
+
+Lemma ring_ok_append s es n' :
+  ring_ok s -> n' = s_next s + Z.of_nat (length es) -> ring_ok (s_append es n' s).
+Proof.
+  intros [Hn Hr] ->. unfold ring_ok. cbn [s_append s_next s_hist s_ring s_start]. split; [rewrite app_length, Hn; lia|].
+  intros Hne. destruct (s_ring s) as [|e0 ring] eqn:Er.
+  - split; [lia|]. cbn [app]. rewrite Hn. replace (Z.to_nat (Z.of_nat (length (s_hist s)) + 1 - 1)) with (length (s_hist s)) by lia.
+    rewrite skipn_app, skipn_all, Nat.sub_diag. reflexivity.
+  - destruct (Hr ltac:(discriminate)) as [H1 H2]. split; [exact H1|].
+    rewrite H2 at 1. rewrite skipn_app_le; [reflexivity|].
+    destruct (Nat.le_gt_cases (Z.to_nat (s_start s - 1)) (length (s_hist s))) as [Hle|Hgt]; [exact Hle|].
+    rewrite skipn_all2 in H2 by lia. discriminate.
+Qed.
+
+Lemma chan_entries_assign c next :
+  c_tasks c <> [] -> let '(_, es, n') := assign (c_src c) (c_tasks c) next in es = chan_entries c /\ n' = next + Z.of_nat (length es).
+Proof.
+  intros Hne. pose proof (assign_spec (c_src c) (c_tasks c) next) as H.
+  destruct (assign (c_src c) (c_tasks c) next) as [[ws es] n']. destruct H as (_ & _ & He & Hn).
+  unfold chan_entries. destruct (c_tasks c) as [|t ts] eqn:E; [contradiction|]. split; [exact He|]. rewrite He, map_length. exact Hn.
+Qed.
